@@ -14,7 +14,10 @@
   A slot (`[]tsSelectRow`) is `Option Cell`: `none` is the nil slice, `some c` the rows the storage stub
   produced for slot time `c.t` of cache key `c.key` at storage version `c.ver` in load `c.load`.
   Ghost fields (not in the Go code, used only by the theorems): `Cell.fin`, `Chunk.key`, `Chunk.lastInv`,
-  `Loader.began`, `Loader.stale`.
+  `Loader.began`, `St.tick`, `St.clock`, `St.bad` / `InitSt.bad` (the freshness monitor).
+  Code quirks reproduced as they are: `removeChunksNotUsedAfterUnlocked` steps over `j - i` chunks after deleting
+  the run `[i, j)` (`removeUnusedGo`); the byte estimate of a chunk counts the capacity excess of three sub-slices of
+  the loader's buffer (`chunkBytes`); switching the limits off with data cached evicts everything once (`opLimits`).
 -/
 namespace SH.TsCache
 
@@ -34,7 +37,7 @@ structure Cell where
   key : Nat
   ver : Nat
   load : Nat
-  fin : Int       -- ghost: time at which the producing load finished
+  fin : Nat       -- ghost: tick (op number) at which the producing load finished
 deriving DecidableEq, Repr
 
 abbrev Slot := Option Cell
@@ -58,7 +61,7 @@ structure Chunk where
   size : Int
   loading : Int
   detached : Bool
-  lastInv : Int                   -- ghost: time of the last invalidation that hit this chunk (0 = never)
+  lastInv : Nat                   -- ghost: tick of the last invalidation that hit this chunk (0 = never)
 deriving DecidableEq, Repr
 
 structure Bucket where
@@ -111,6 +114,11 @@ structure St where
   maxSize : Int := 0
   soft : Int := 0
   down : Bool := false
+  tick : Nat := 0                 -- ghost: number of the current operation
+  clock : Int := 0                -- ghost: `now` of the previous operation
+  /-- ghost monitor (not in the Go code): set when a request that accepts no staleness is served, from the
+      cache, a cell whose load finished before an invalidation that hit the chunk before the request began -/
+  bad : Bool := false
 deriving DecidableEq, Repr
 
 def init (cfg : Cfg) : St := { cfg := cfg }
@@ -159,11 +167,15 @@ structure InitSt where
   l : Loader
   pend : List LChunk
   fresh : Nat
+  bad : Bool := false             -- ghost monitor, see `St.bad`
 deriving Repr
 
-def getChunk (cs : List Chunk) (cid : Nat) : Chunk :=
-  cs.getD cid { start := 0, stop := 0, key := 0, data := none, awaiters := [], invAt := 0, lsa := 0,
-                lastAccess := 0, size := 0, loading := 0, detached := true, lastInv := 0 }
+/-- what a dangling index denotes (never happens: indices are only created by `visit`) -/
+def noChunk : Chunk :=
+  { start := 0, stop := 0, key := 0, data := none, awaiters := [], invAt := 0, lsa := 0,
+    lastAccess := 0, size := 0, loading := 0, detached := true, lastInv := 0 }
+
+def getChunk (cs : List Chunk) (cid : Nat) : Chunk := cs.getD cid noChunk
 
 def startLoad (now : Int) (c : Chunk) : Chunk := { c with loading := c.loading + 1, lsa := now }
 def touch (now : Int) (c : Chunk) : Chunk := { c with lastAccess := now }
@@ -173,10 +185,17 @@ def awaitChunk (s : InitSt) (v : LChunk) : InitSt :=
     chunks := modAt (fun c => { c with awaiters := c.awaiters ++ [{ req := s.l.id, ls := v.ls, le := v.le, off := v.ls - v.pos }] }) v.cid s.chunks
     l := { s.l with waitN := s.l.waitN + 1 } }
 
+/-- some cell of the chunk comes from a load that finished before the last invalidation of the chunk -/
+def hasStale (c : Chunk) : Bool :=
+  match c.data with
+  | none => false
+  | some d => d.any (fun x => match x with | none => false | some cell => decide (cell.fin < c.lastInv))
+
 def copyChunk (s : InitSt) (v : LChunk) : InitSt :=
   match (getChunk s.chunks v.cid).data with
   | none => s       -- Go would panic; unreachable (wait = false only if data ≠ nil)
-  | some d => { s with l := { s.l with data := setRange s.l.data v.ls (slice d (v.ls - v.pos) (v.le - v.pos)) } }
+  | some d => { s with l := { s.l with data := setRange s.l.data v.ls (slice d (v.ls - v.pos) (v.le - v.pos)) }
+                       bad := s.bad || (s.l.stale == 0 && hasStale (getChunk s.chunks v.cid)) }
 
 def awaitCopyOne (s : InitSt) (v : LChunk) : InitSt := if v.wait then awaitChunk s v else copyChunk s v
 
@@ -373,12 +392,12 @@ def opGet (s : St) (id key : Nat) (play : Int) (force : Bool) (fromSec toSec now
     let info : Info := { s.info with buckets := s.info.buckets + (if isNew then 1 else 0),
                                      chunkLen := s.info.chunkLen + r.fresh * s.cfg.K, chunks := s.info.chunks + r.fresh }
     let s' := { s with chunks := r.chunks, buckets := if isNew then s.buckets ++ [b'] else putBucket b' s.buckets,
-                       loaders := s.loaders ++ [l'], info := info }
+                       loaders := s.loaders ++ [l'], info := info, bad := s.bad || r.bad }
     (afterUpdate now s', .started l')
 
 /-- the storage stub: one cell per slot of the loaded range -/
-def stubCells (cfg : Cfg) (key ver load : Nat) (now fromSec : Int) (n : Nat) : List Slot :=
-  (List.range n).map (fun (i : Nat) => some { t := fromSec + (i : Int) * cfg.step, key := key, ver := ver, load := load, fin := now })
+def stubCells (cfg : Cfg) (key ver load : Nat) (tick : Nat) (fromSec : Int) (n : Nat) : List Slot :=
+  (List.range n).map (fun (i : Nat) => some { t := fromSec + (i : Int) * cfg.step, key := key, ver := ver, load := load, fin := tick })
 
 def deliver (ok : Bool) (src : List Slot) (a : Awaiter) (l : Loader) : Loader :=
   if l.id != a.req then l else
@@ -399,10 +418,12 @@ structure FinSt where
   dsize : Int
   start : Nat
 
-/-- one iteration of the post-load loop of `loadChunks` -/
-def finChunk (cfg : Cfg) (ok : Bool) (data : List Slot) (s : FinSt) (v : LChunk) : FinSt :=
+/-- one iteration of the post-load loop of `loadChunks`. `cells` is what the storage call wrote into
+    `ret = l.data[first.chunkStart:last.chunkEnd]` (`base = first.chunkStart`); `chunkData = l.data[start:end]`
+    aliases `ret[start-base : end-base]` because `start` runs from `base` in steps of the chunk size. -/
+def finChunk (cfg : Cfg) (ok : Bool) (data cells : List Slot) (base : Nat) (s : FinSt) (v : LChunk) : FinSt :=
   let stop := s.start + cfg.K
-  let chunkData := slice data s.start stop
+  let chunkData := if ok then slice cells (s.start - base) (stop - base) else slice data s.start stop
   let bytes := chunkBytes cfg data.length v stop chunkData
   let c := getChunk s.chunks v.cid
   let dsize := if !c.detached && ok then bytes - c.size else 0
@@ -419,6 +440,16 @@ def findLoader (id : Nat) : List Loader → Option Loader
   | [] => none
   | l :: ls => if l.id == id then some l else findLoader id ls
 
+/-- `loadChunks` of loader `l` (first chunk `first`) from the moment the storage call returns -/
+def finApply (s : St) (l : Loader) (first : LChunk) (ok : Bool) (ver : Nat) (now : Int) : St :=
+  let n := l.chunks.length * s.cfg.K
+  let fromSec := (getChunk s.chunks first.cid).start / nsec
+  let cells := stubCells s.cfg l.key ver l.id s.tick fromSec n
+  let data := if ok then setRange l.data first.pos cells else l.data
+  let loaders1 := s.loaders.map (fun x => if x.id == l.id then ownMessage ok data x else x)
+  let r := l.chunks.foldl (finChunk s.cfg ok data cells first.pos) { chunks := s.chunks, loaders := loaders1, dsize := 0, start := first.pos }
+  afterUpdate now { s with chunks := r.chunks, loaders := r.loaders, info := { s.info with size := s.info.size + r.dsize } }
+
 def opFin (s : St) (id : Nat) (ok : Bool) (ver : Nat) (now : Int) : Option St :=
   match findLoader id s.loaders with
   | none => none
@@ -426,13 +457,7 @@ def opFin (s : St) (id : Nat) (ok : Bool) (ver : Nat) (now : Int) : Option St :=
     if !l.loadPending then none else
     match l.chunks with
     | [] => none
-    | first :: _ =>
-      let n := l.chunks.length * s.cfg.K
-      let fromSec := (getChunk s.chunks first.cid).start / nsec
-      let data := if ok then setRange l.data first.pos (stubCells s.cfg l.key ver l.id now fromSec n) else l.data
-      let loaders1 := s.loaders.map (fun x => if x.id == id then ownMessage ok data x else x)
-      let r := l.chunks.foldl (finChunk s.cfg ok data) { chunks := s.chunks, loaders := loaders1, dsize := 0, start := first.pos }
-      some (afterUpdate now { s with chunks := r.chunks, loaders := r.loaders, info := { s.info with size := s.info.size + r.dsize } })
+    | first :: _ => some (finApply s l first ok ver now)
 
 /-- `cache2.invalidate`: seconds → distinct chunk starts -/
 def invStarts (cfg : Cfg) : List Int → Option Int → List Int
@@ -442,39 +467,43 @@ def invStarts (cfg : Cfg) : List Int → Option Int → List Int
     if stop <= t * nsec then let st := chunkStartOf cfg (t * nsec); st :: invStarts cfg ts (some (st + cfg.dur))
     else invStarts cfg ts (some stop)
 
-def invalidateChunk (now : Int) (c : Chunk) : Chunk := { c with invAt := now, lastInv := now }
+def invalidateChunk (now : Int) (tick : Nat) (c : Chunk) : Chunk := { c with invAt := now, lastInv := tick }
 
 /-- the merge walk of `cache2Bucket.invalidate` over (sorted) chunk starts and the bucket's chunks -/
-def invWalkF (now : Int) : Nat → List Int → List Nat → List Chunk → List Chunk
+def invWalkF (now : Int) (tick : Nat) : Nat → List Int → List Nat → List Chunk → List Chunk
   | 0, _, _, cs => cs
   | _ + 1, [], _, cs => cs
   | _ + 1, _, [], cs => cs
   | fuel + 1, t :: ts, i :: is, cs =>
     let st := (getChunk cs i).start
-    if t < st then invWalkF now fuel ts (i :: is) cs
-    else if st < t then invWalkF now fuel (t :: ts) is cs
-    else invWalkF now fuel ts is (modAt (invalidateChunk now) i cs)
+    if t < st then invWalkF now tick fuel ts (i :: is) cs
+    else if st < t then invWalkF now tick fuel (t :: ts) is cs
+    else invWalkF now tick fuel ts is (modAt (invalidateChunk now tick) i cs)
 
-def invWalk (now : Int) (ts : List Int) (is : List Nat) (cs : List Chunk) : List Chunk :=
-  invWalkF now (ts.length + is.length) ts is cs
+def invWalk (now : Int) (tick : Nat) (ts : List Int) (is : List Nat) (cs : List Chunk) : List Chunk :=
+  invWalkF now tick (ts.length + is.length) ts is cs
 
 def disjointRange (cs : List Chunk) (times : List Int) (cids : List Nat) : Bool :=
   match times.getLast?, times.head?, cids.head?, cids.getLast? with
   | some tl, some th, some ch, some cl => tl < (getChunk cs ch).start || (getChunk cs cl).start < th
   | _, _, _, _ => true
 
-def invBucket (now : Int) (times : List Int) (cs : List Chunk) (b : Bucket) : List Chunk :=
-  if disjointRange cs times b.cids then cs else invWalk now times b.cids cs
+def invBucket (now : Int) (tick : Nat) (times : List Int) (cs : List Chunk) (b : Bucket) : List Chunk :=
+  if disjointRange cs times b.cids then cs else invWalk now tick times b.cids cs
 
 def opInv (s : St) (secs : List Int) (now : Int) : St :=
   let times := invStarts s.cfg secs none
-  { s with chunks := s.buckets.foldl (invBucket now times) s.chunks }
+  { s with chunks := s.buckets.foldl (invBucket now s.tick times) s.chunks }
+
+/-- `setLimits` normalisation: no hard limit means no limits; a missing/too large soft limit is 80 % -/
+def normMax (m : Int) : Int := if m <= 0 then 0 else m
+def normSoft (m so : Int) : Int := if m <= 0 then 0 else if so <= 0 || m <= so then m * 4 / 5 else so
+
+def sameLimits (s : St) (m so : Int) : Bool := s.down || (s.maxSize == m && s.soft == so)
 
 def opLimits (s : St) (maxSize soft now : Int) : St :=
-  let (m, so) := if maxSize <= 0 then ((0 : Int), (0 : Int))
-                 else if soft <= 0 || maxSize <= soft then (maxSize, maxSize * 4 / 5) else (maxSize, soft)
-  if s.down || (s.maxSize == m && s.soft == so) then s
-  else trimPass now { s with maxSize := m, soft := so }
+  if sameLimits s (normMax maxSize) (normSoft maxSize soft) then s
+  else trimPass now { s with maxSize := normMax maxSize, soft := normSoft maxSize soft }
 
 def opShutdown (s : St) (now : Int) : St :=
   reduce now s.buckets.length { s with down := true, maxSize := 0, soft := 0 }
@@ -490,7 +519,17 @@ inductive Op
   | shutdown (now : Int)
 deriving Repr
 
-def step (s : St) : Op → St
+def Op.now : Op → Int
+  | .get _ _ _ _ _ _ now => now
+  | .fin _ _ _ now => now
+  | .inv _ now => now
+  | .trimChunks _ _ now => now
+  | .rmBucket _ now => now
+  | .reset now => now
+  | .limits _ _ now => now
+  | .shutdown now => now
+
+def apply (s : St) : Op → St
   | .get id key play force f t now => (opGet s id key play force f t now).1
   | .fin id ok ver now => (opFin s id ok ver now).getD s
   | .inv secs now => opInv s secs now
@@ -499,6 +538,9 @@ def step (s : St) : Op → St
   | .reset now => afterUpdate now (resetAll s)
   | .limits m so now => opLimits s m so now
   | .shutdown now => opShutdown s now
+
+/-- one operation: bump the ghost op counter, run it, remember its clock reading -/
+def step (s : St) (op : Op) : St := { (apply { s with tick := s.tick + 1 } op) with clock := op.now, tick := s.tick + 1 }
 
 def run (s : St) (ops : List Op) : St := ops.foldl step s
 
